@@ -5,6 +5,7 @@ import ThruVerif.Driver.SendFileCmd
 import ThruVerif.Driver.AdmissionCmd
 import ThruVerif.Driver.PathCmd
 import ThruVerif.Driver.SidecarCmd
+import ThruVerif.Driver.ScanCmd
 import ThruVerif.Model.Budget
 /-!
 `tvdriver`: one case per input line, one result per output line. The same lines are given to the Go
@@ -40,6 +41,8 @@ def handle (line : String) : String :=
   | "recvfx" :: ws => handleRecvFx ws
   | "scparse" :: ws => handleScParse ws
   | "budget" :: ws => handleBudget ws
+  | "scan" :: ws => handleScan ws
+  | "topnames" :: ws => handleTopNames ws
   | "scser" :: ws => handleScSer ws
   | "scload" :: ws => handleScLoad ws
   | "clean" :: ws => handlePath "clean" ws
